@@ -141,9 +141,9 @@ def check(rep, args):
     for cfg in configs:
         check_config(rep, facts.program(cfg))
     cov = {
-        "explanation": "dominance / control-dependence / provenance rules over the MIR of Framebuf::rasterize, "
-                       "Context::depth_test, render() and depth_sort; decides the write-on-pass mechanism that order "
-                       "independence rests on, not image equality",
+        "explanation": "Framebuf::rasterize interpreted over (predicate x depth order x shader result x flags) scenarios, render() interpreted on a reference "
+                       "scene under every depth_sort setting, Context::depth_test / depth_sort over all float orderings; decides the write-on-pass "
+                       "mechanism that order independence rests on, not image equality",
         "evaluations": len(rep.instances),
         "distinct_nontrivial": len({i["what"] for i in rep.instances}),
         "rules": ["W1", "W1e", "W2", "W3", "W4", "W5", "W6", "W7"],
